@@ -29,6 +29,7 @@ type SendClause struct {
 
 type LoopContract struct {
 	Invariants []Clause
+	Steps      []Clause // checked at the back edge; prev(e) is e at the head of the iteration just executed
 	Decreases  *Clause
 	Unroll     int
 }
@@ -259,6 +260,11 @@ func parseClause(fc *FuncContract, word, rest string) error {
 				lab = fmt.Sprintf("inv%d", len(lc.Invariants)+1)
 			}
 			lc.Invariants = append(lc.Invariants, Clause{Label: lab, Expr: e, Src: src})
+		case "step":
+			if lab == "" {
+				lab = fmt.Sprintf("step%d", len(lc.Steps)+1)
+			}
+			lc.Steps = append(lc.Steps, Clause{Label: lab, Expr: e, Src: src})
 		case "decreases":
 			if lab == "" {
 				lab = "decreases"
